@@ -56,7 +56,8 @@ func envOr(k, dflt string) string {
 // Workloads in the order the generators use them.
 var Workloads = []string{"hashtable-iterate", "set-iterate", "first-follow", "grammar-transform", "ll1-table",
 	"lr-slr", "lr-lalr", "lr-canonical", "automata-determinize", "hash-api", "ordered-tables", "tries", "heaps",
-	"lexer-input", "graphs-dot", "structures", "mixed"}
+	"lexer-input", "graphs-dot", "parse-predictive", "parse-slr", "parse-lalr", "parse-lr1", "combinator",
+	"automata-combine", "grammar-normalize", "func-values", "structures", "mixed"}
 
 // apiPrefixes: which exported API entries (names as in the regenerated table, by prefix) a workload calls
 // directly.  Used ONLY to order the witness search (workloads that reach a flagged package-level variable
@@ -78,6 +79,14 @@ var apiPrefixes = map[string][]string{
 	"lexer-input":          {"lexer/input."},
 	"graphs-dot":           {"graph.", "dot.", "heap.binomial.DOT", "heap.fibonacci.DOT", "automata.NFA.DOT", "automata.DFA.DOT"},
 	"structures":           {"sort.", "radixsort.", "list.", "unionfind."},
+	"parse-predictive":     {"grammar.NewCFG", "parser/predictive.", "parser.", "lexer."},
+	"parse-slr":            {"grammar.NewCFG", "parser/lr/simple.New", "parser/lr.Parser.", "parser.", "lexer."},
+	"parse-lalr":           {"grammar.NewCFG", "parser/lr/lookahead.New", "parser/lr.Parser.", "parser.", "lexer."},
+	"parse-lr1":            {"grammar.NewCFG", "parser/lr/canonical.New", "parser/lr.Parser.", "parser.", "lexer."},
+	"combinator":           {"parser/combinator."},
+	"automata-combine":     {"automata."},
+	"grammar-normalize":    {"grammar.NewCFG", "grammar.CFG.", "grammar.LongestCommonPrefixOf"},
+	"func-values":          {"grammar.Hash", "grammar.Eq", "grammar.Cmp", "automata.Hash", "automata.Eq", "automata.Cmp", "parser/lr.Hash", "parser/lr.Eq", "parser/lr.Cmp", "parser.EqNode", "errors."},
 }
 
 type facts struct {
